@@ -18,7 +18,7 @@ _NONNEG = set()        # names of variables declared >= 0
 
 
 class E(object):
-    __slots__ = ("op", "args", "key", "__weakref__")
+    __slots__ = ("op", "args", "key", "partial", "__weakref__")
 
     def __repr__(self):
         return "E<%s>" % show(self, 3)
@@ -34,7 +34,24 @@ def _intern(op, args):
     if o is None:
         o = E()
         o.op, o.args, o.key = op, args, len(_CACHE)
+        # does the term contain a partial operation whose argument is not syntactically inside its domain?
+        p = False
+        for a in args:
+            if isinstance(a, E):
+                p = p or a.partial
+            elif isinstance(a, tuple):
+                for b in a:
+                    if isinstance(b, E) and b.partial:
+                        p = True
+        o.partial = p
         _CACHE[k] = o
+        if not p:
+            if op == "inv":
+                o.partial = not is_pos(args[0])
+            elif op == "root":
+                o.partial = not is_nonneg(args[0])
+            elif op == "fn" and args[0] == "log":
+                o.partial = not is_pos(args[1])
     return o
 
 
@@ -79,7 +96,13 @@ def mul(a, b):
     if a.op == "const" and b.op == "const":
         return const(a.args[0] * b.args[0])
     if a is ZERO or b is ZERO:
-        return ZERO
+        # 0 * x = 0 over the reals, but 0 * (1/0) is NaN in the code: keep the product when the other factor
+        # contains a partial operation so that the domain obligation (C08) is still generated
+        if not (a.partial or b.partial):
+            return ZERO
+        if a.key > b.key:
+            a, b = b, a
+        return _intern("mul", (a, b))
     if a is ONE:
         return b
     if b is ONE:
